@@ -27,7 +27,7 @@ import (
 // VERIF_SHIM = "<signature>|<permille>|<align>|<exit>|<kill>"
 //   signature: substring of the space-joined argument list
 //   permille : deliver only this fraction of the real stdout (1000 = all)
-//   align    : 1 = cut at the previous line boundary
+//   align    : bit 0: cut at the previous line boundary; bit 1: break only the first matching invocation
 //   exit     : exit status to report (-1 = the real one)
 //   kill     : 1 = die from SIGKILL after delivering the prefix
 func init() {
@@ -45,6 +45,15 @@ func init() {
 	}
 	permille, _ := strconv.Atoi(f[1])
 	exitCode, _ := strconv.Atoi(f[3])
+	if al, _ := strconv.Atoi(f[2]); al&2 != 0 {
+		// only the FIRST matching invocation of the run is broken: a program that quietly tries again
+		// (seeded change C10g retried `rev-parse --verify` in another spelling) then gets a healthy git
+		if b, err := os.ReadFile(os.Getenv("VERIF_SHIM_LOG")); err == nil && len(b) > 0 {
+			syscall.Exec(real, append([]string{"git"}, args...), os.Environ())
+			os.Exit(127)
+		}
+		f[2] = strconv.Itoa(al & 1)
+	}
 	if lg := os.Getenv("VERIF_SHIM_LOG"); lg != "" {
 		if fh, err := os.OpenFile(lg, os.O_APPEND|os.O_CREATE|os.O_WRONLY, 0o644); err == nil {
 			fh.WriteString("hit\n")
@@ -198,11 +207,17 @@ func optsRepo() ([]gObj, []int64, []string) {
 	objs = append(objs, gObj{kind: 'g', ref: 15, refKind: 'c'})              // 16
 	objs = append(objs, gObj{kind: 'g', ref: 16, refKind: 'g'})              // 17
 	objs = append(objs, gObj{kind: 'g', ref: 17, refKind: 'g'})              // 18
+	// a chain of 36 nested tags on the side branch: "Maximum tag depth" lies between 30 and 40 times its
+	// reference, so thresholds above 30 are distinguishable (seeded change C14g clamped --threshold to 30)
+	objs = append(objs, gObj{kind: 'g', ref: 3, refKind: 'c'}) // 19
+	for k := 0; k < 35; k++ {
+		objs = append(objs, gObj{kind: 'g', ref: len(objs) - 1, refKind: 'g', pad: k})
+	}
 	times := make([]int64, len(objs))
 	for i := range times {
 		times[i] = 1500000000 + int64(i)
 	}
-	refs := []string{"refs/heads/main=15", "refs/heads/side=3", "refs/tags/deep=18", "refs/tags/v1=16", "refs/remotes/origin/main=15", "refs/notes/commits=4"}
+	refs := []string{"refs/heads/main=15", "refs/heads/side=3", "refs/tags/deep=18", fmt.Sprintf("refs/tags/deeper=%d", len(objs)-1), "refs/tags/v1=16", "refs/remotes/origin/main=15", "refs/notes/commits=4"}
 	return realSizes(objs, times), times, refs
 }
 
@@ -394,7 +409,7 @@ func genOptCase0(r *rng) optCase {
 		g := []string{"branches", "tags", "remotes", "notes"}[r.n(4)]
 		return optCase{argsA: append([]string{"--refgroup", g}, out...), argsB: append([]string{"--include", "@" + g}, out...), expect: "equal"}
 	case 5: // gitconfig has the effect of the option when no option of the family is given
-		v := []string{"0", "1", "30", "2.5", "12", "-1", "1e9"}[r.n(7)]
+		v := []string{"0", "1", "30", "2.5", "12", "-1", "1e9", "40", "33.5"}[r.n(9)]
 		if r.coin(1, 3) {
 			// the key defined twice (two scopes): git's answer — `git config --get` — is the LAST one
 			// (seeded C14y looked the key up in the listing and took the first)
@@ -815,6 +830,30 @@ func init() {
 					roots = append(roots, 2)
 				}
 				format = "json1"
+			} else if i%64 == 29 {
+				// two versions of a directory with 34 000 entries: tree objects above 1 MiB that follow one another in
+				// the `cat-file --batch` stream (seeded change C17g reused one buffer for objects of 1 MiB and more)
+				objs = []gObj{{kind: 'b', size: 12}}
+				parent := -1
+				for v := 0; v < 2; v++ {
+					es := make([]gEntry, 0, 34000)
+					for k := 0; k < 34000; k++ {
+						name := fmt.Sprintf("entry-%05d-v%d", k, v*(k%2))
+						es = append(es, gEntry{0o100644, []byte(name), 0})
+					}
+					objs = append(objs, gObj{kind: 't', entries: es})
+					c := gObj{kind: 'c', tree: len(objs) - 1, pad: 5}
+					if parent >= 0 {
+						c.parents = []int{parent}
+					}
+					objs = append(objs, c)
+					parent = len(objs) - 1
+				}
+				times = []int64{1600000000, 1600000001, 1600000002, 1600000003, 1600000004}
+				objs = realSizes(objs, times)
+				refs = []string{fmt.Sprintf("refs/heads/main=%d", parent)}
+				args, roots = nil, []int{parent}
+				format = "json1"
 			} else if r.n(12) == 0 {
 				objs, times, refs = bigTreeRepo(r)
 				objs = realSizes(objs, times)
@@ -878,7 +917,10 @@ func init() {
 				bin += "-race"
 			}
 			o1, e1, c1 := runCmd(w, envWith(gitEnv(), "GOMAXPROCS=1"), nil, bin, append([]string{"--no-progress"}, sargs...)...)
-			o2, e2, c2 := runCmd(w, envWith(gitEnv(), "GOMAXPROCS=16"), nil, bin, append([]string{"--progress"}, sargs...)...)
+			// the --progress run sometimes has a narrow COLUMNS in its environment: the final lines must still carry
+			// the whole count (seeded change C18g cut progress lines to the terminal width, through the digits)
+			cols := []string{"GOMAXPROCS=16", "COLUMNS=30", "COLUMNS=12"}[len(objs)%3]
+			o2, e2, c2 := runCmd(w, envWith(gitEnv(), "GOMAXPROCS=16", cols), nil, bin, append([]string{"--progress"}, sargs...)...)
 			o3, _, c3 := runCmd(w, envWith(gitEnv(), "GOMAXPROCS=4"), nil, bin, append([]string{"--no-progress"}, sargs...)...)
 			same := bytes.Equal(o1, o2) && bytes.Equal(o1, o3)
 			for k := 0; k < 3 && same; k++ { // further runs: randomised iteration orders show up only sometimes
@@ -930,7 +972,7 @@ func init() {
 			if r.coin(1, 3) {
 				permille = r.n(1001)
 			}
-			align := r.n(2)
+			align := r.n(4)
 			exit := []int{-1, 1, 1, 2, 3, 128, 129}[r.n(7)]
 			kill := 0
 			if r.coin(1, 4) {
